@@ -167,7 +167,7 @@ class AddConditionApply(Contract):
     templates substituted for THIS rule when template is set - and the configuration itself is not modified (so a later rule is treated alike)"""
     id = "C12.AddConditionTransformation.apply"
     target = "sigma.processing.transformations.condition:AddConditionTransformation.apply"
-    props = ("C12", "C15")
+    props = ("C12", "C15", "C08")
     cases = (True, False)
     assumed = ["string.Template(...).safe_substitute is abstract (a function of template text and the three log source values)", "SigmaDetection.from_definition abstract"]
 
@@ -192,10 +192,13 @@ class AddConditionApply(Contract):
 
     def before(self, I, inp):
         # history: the same transformation object processed another rule (other log source) before
-        I.call_function(I.E.index.lookup(self.target), inp["self"], [self.mk_rule(I, "r0")], {})
+        inp["earlier"] = self.mk_rule(I, "r0")
+        I.call_function(I.E.index.lookup(self.target), inp["self"], [inp["earlier"]], {})
 
     def post(self, I, inp, r):
         c, rule = I.ctx, inp["rule"]
+        d_new, d_old = rule.fields["detection"].fields["detections"].get("_cond_x"), inp["earlier"].fields["detection"].fields["detections"].get("_cond_x")
+        c.require(d_new is not None and d_new is not d_old, "every rule gets its OWN detection object (later items rewrite detection items in place: a shared object would carry one rule's rewriting into the next)", kind="FRAME")
         c.require(inp["self"].fields["conditions"] == inp["snapshot"], "the configured conditions are unchanged (templates are not overwritten by one rule's values)")
         det = rule.fields["detection"].fields["detections"].get("_cond_x")
         ok = isinstance(det, SObj) and isinstance(det.fields.get("definition"), dict)
